@@ -44,10 +44,21 @@ def dyadic_family(rng, k, fam):
                 for _ in range(n)]
     if fam == "huge":
         return [Fraction(int(rng.integers(-4000, 4000)), 8) for _ in range(n)]
+    if fam in ("int_list", "np_int_array"):      # integer-typed angle lists are valid input
+        return [Fraction(int(rng.integers(-7, 8))) for _ in range(n)]
     raise ValueError(fam)
 
 
-FAMS = ["random", "zeros", "constant", "allzero", "subthreshold", "huge"]
+FAMS = ["random", "zeros", "constant", "allzero", "subthreshold", "huge", "int_list", "np_int_array"]
+
+
+def as_input(ang, fam):
+    """the object handed to qclib: floats, Python ints or an integer numpy array"""
+    if fam == "int_list":
+        return [int(a) for a in ang]
+    if fam == "np_int_array":
+        return np.array([int(a) for a in ang])
+    return [float(a) for a in ang]
 
 
 def flat_to_coq(fl):
@@ -75,7 +86,7 @@ def correspondence(ctx):
                         cases.append((r, e, last, k, ang, fam))
     lines = []
     for (r, e, last, k, ang, fam) in cases:
-        circ = ucr_impl(r, e, [float(a) for a in ang], last)
+        circ = ucr_impl(r, e, as_input(ang, fam), last)
         fl, _ = flatten(circ)
         ctx.max_struct_qubits = max(ctx.max_struct_qubits, circ.num_qubits)
         ctx.count("corr:" + fam, key=("corr", r, e, last, k, tuple(ang)), nontrivial=k >= 1,
@@ -101,7 +112,7 @@ def correspondence(ctx):
         idx = [int(x) for x in re.findall(r"\d+", m.group(1))]
         for i in idx:
             r, e, last, k, ang, fam = cases[si * shard + i]
-            circ = ucr_impl(r, e, [float(a) for a in ang], last)
+            circ = ucr_impl(r, e, as_input(ang, fam), last)
             fl, _ = flatten(circ)
             ctx.mismatch("C13 correspondence: gate list of qclib.gates.ucr.ucr differs from the Coq model UcrModel.run_q",
                          {"r": r, "e": e, "last": last, "k": k, "angles": [str(a) for a in ang], "family": fam,
@@ -126,9 +137,14 @@ def reference(r, angles):
 
 def eval_case(ctx, r, e, last, angles, fam):
     """property C13 on the implementation: returns True when it holds"""
+    given = angles
+    if fam == "int_list":
+        given = [int(a) for a in angles]
+    elif fam == "np_int_array":
+        given = np.array([int(a) for a in angles])
     angles = [float(a) for a in angles]
     k = int(np.log2(len(angles)))
-    circ = ucr_impl(r, e, angles, last)
+    circ = ucr_impl(r, e, given, last)
     if not last and k >= 1:
         circ = circ.copy()
         circ.append(ENT[e](), [k, 0])
@@ -156,10 +172,15 @@ def float_family(rng, k, fam):
         v = [0.0] * n
         v[int(rng.integers(n))] = float(rng.uniform(-6, 6))
         return v
+    if fam in ("int_list", "np_int_array"):
+        return [float(int(x)) for x in rng.integers(-7, 8, n)]
+    if fam == "half_equal":      # the two halves coincide: the top control is irrelevant
+        h = list(rng.uniform(-3, 3, max(n // 2, 1)))
+        return (h + h)[:n] if n > 1 else h
     raise ValueError(fam)
 
 
-EFAMS = ["uniform", "zeros", "big", "equal", "onehot"]
+EFAMS = ["uniform", "zeros", "big", "equal", "onehot", "int_list", "np_int_array", "half_equal"]
 
 
 def evaluate(ctx, deep):
